@@ -79,7 +79,7 @@ func init() {
 									c.Count("opt-refused")
 									continue
 								}
-								out1 = "compile-error: " + firstLine(err1.Error())
+								out1 = "compile-error: " + semFirstLine(err1.Error())
 							} else {
 								out1 = runPlain(bc1, ugo.Map{b: f}, []ugo.Object{f})
 							}
